@@ -12,8 +12,11 @@ according to the regenerated class table.  `Err.fuel` (loop not finished within 
 also says that the component terminates within the stated fuel.
 
 Only property theorems live here (helper lemmas: `Lemmas/Lenient.lean`).
-Components that are NOT modelled (parser, filters, fonts, interpreter, layout, converters,
-encryption) are covered by the fault enumeration of the harness only.
+Round 6: the stream decoders / predictors / `PDFStream.decode` on damaged payloads are covered through C03's model
+`PdfVerif.Filters` (tied to the code by `drv_c13` ops `dec` / `pred` / `sdec`, tools/harness/props/c13_codec.py), and
+the work of `resolve1` / the xref chain / `resolve_all` is stated in `getobj` calls and sections loaded.
+Components that are NOT modelled (parser, CCITT/Flate internals, number/name-tree walks, fonts, interpreter, layout,
+converters, encryption) are covered by the fault enumeration of the harness only.
 -/
 import PdfVerif.Lemmas.Lenient
 import PdfVerif.Lemmas.LenientCodec
